@@ -50,6 +50,9 @@ THEOREMS = [
     "Nix.C18.C18_shape_refusal",
     "Nix.C18.C18_shape_readers",
     "Nix.C18.C18_shape_ops",
+    "Nix.C18.C18_shape_create",
+    "Nix.C18.C18_shape_entry",
+    "Nix.C18.C18_texts_verbatim",
     "Nix.C18.C18_content_no_name_taken",
     "Nix.C18.C18_fails_only_on_taken_name",
     "Nix.C18.C18_content_full",
@@ -97,9 +100,13 @@ MANIFEST = {
                   "`<name>.<extra>` name of a compound property (NoNameTaken; the five suffixes are proved to give "
                   "pairwise distinct names) no step can fail - that is the only way an upgrade fails - and every per-value extra of every property is retrievable, plain "
                   "properties, arrays and dimension readings (alias range dimensions: ticks, unit, label) are "
-                  "unchanged. The shape of the source (task order and conditions in collect_tasks, loop direction in "
+                  "unchanged; unit and definition texts are carried verbatim whatever they contain "
+                  "(C18_texts_verbatim: any string, after any step list). The shape of the source (task order and conditions in collect_tasks, loop direction in "
                   "process_tasks, find / re-check tests, the rules for the per-value extras, order of delete/create, "
-                  "RangeDimension.is_alias and the ticks/unit/label getters) is regenerated from nixio/cmd/upgrade.py "
+                  "create_property itself - parameters handed to create_dataset unchanged, attributes written, definition / unit "
+                  "only when non-empty -, the arguments of the main call each read once from the old dataset and passed on "
+                  "unmodified, has_valid_file_id with uuid.UUID's acceptance modelled completely, file_upgrade's "
+                  "collect-then-process, RangeDimension.is_alias and the ticks/unit/label getters) is regenerated from nixio/cmd/upgrade.py "
                   "and nixio/dimensions.py on every run and proved equal to the model (C18_shape_*); the rest of the "
                   "model is tied to the code by differential runs on h5py-crafted old files with every interruption "
                   "point.",
